@@ -149,8 +149,32 @@ C15Deviation(c, f) ==
        THEN "IcodeDotKept"
   ELSE ""
 
+\* repeated atom records: agreement of the readings with each other (see DupDomain)
+TableAtoms(L, k) == { AtomRec(L[i]) : i \in { j \in Idx(L) : ResKey(L[j]) = k } }
+DupReadFailing(L, X) ==
+  IF X.err # "" THEN "NoException"
+  ELSE IF ~NullMarkersAbsent(X.res) THEN "NullMarkers"
+  ELSE IF ~SameResidues(L, X.res) THEN "SameResidues"
+  ELSE IF \E r \in 1..Len(X.res) :
+            LET T == TableAtoms(L, <<X.res[r].ch, X.res[r].num, X.res[r].ic, X.res[r].rn>>) IN
+            \/ ~(AtomSetOf(X.res[r]) \subseteq T)
+            \/ { a.an : a \in AtomSetOf(X.res[r]) } # { a.an : a \in T }
+       THEN "SameAtomsAndCoords"
+  ELSE IF X.gen = 1 /\ ~(Adjacent(L) \subseteq SeqSet(X.queried)) THEN "SameConnectivity"
+  ELSE "ok"
+DupFailing(c, L) ==
+  LET R == c.reads
+      bad == { a \in 1..Len(R) : DupReadFailing(L, R[a]) # "ok" } IN
+  IF bad # {} THEN <<DupReadFailing(L, R[Min(bad)]), R[Min(bad)].name>>
+  ELSE IF \E ab \in Adjacent(L) : \E x, y \in 1..Len(R) :
+             (ab \in SeqSet(R[x].conn)) # (ab \in SeqSet(R[y].conn)) THEN <<"SameConnectivity", "repeated-records">>
+  ELSE IF ~ChiAgree(R) THEN <<"SameChiMagnitude", "repeated-records">>
+  ELSE <<"ok", "">>
+
 C15Verdict(c) ==
-  IF ~AgreeDomain(L0(c)) THEN <<"skip">>
+  IF DupDomain(L0(c)) THEN
+       LET f == DupFailing(c, L0(c)) IN IF f[1] = "ok" THEN <<"ok">> ELSE <<"fail", f[1], f[2]>>
+  ELSE IF ~AgreeDomain(L0(c)) THEN <<"skip">>
   ELSE LET f == AgreeFailing(c, L0(c), TRUE) IN
        IF f[1] = "ok" THEN <<"ok">>
        ELSE LET d == C15Deviation(c, f) IN
